@@ -20,9 +20,18 @@ pub fn gen_corpus_spec(rng: &mut Prng) -> Spec {
         return s;
     }
     let mut spec = Spec { prop: "C18".into(), variant: "corpus_det".into(), ..Default::default() };
-    let kind = pick_det_kind(rng);
+    let mut kind = pick_det_kind(rng);
+    let long_zero = rng.chance(1, 150);
+    if long_zero {
+        kind = Kind::XorShift;
+    }
     spec.kind = Some(kind);
     spec.seed = Some(gen_seed(rng, kind));
+    if long_zero {
+        let src = gen_long_zero_source(rng);
+        spec.seed = Some(if rng.chance(1, 2) { crate::gens::SeedSpec::FromRng(src) } else { crate::gens::SeedSpec::TryFromRng(src) });
+        spec.variant = "corpus_det_long_zero_source".into();
+    }
     spec.pre = rng.below(pre_range(kind) + 1) as u32;
     let mut ops = gen_output_ops(rng, kind, 48);
     if kind.has_jump() {
